@@ -443,13 +443,25 @@ def implStar (run : IRun) (e : XExpr) : Nat → Locals → Nat → List Val → 
     | some (.fail, L') => some (.ok (.list acc.reverse) p, L')
     | some (.ok v p', L') => implStar run e fuel L' p' (v :: acc)
 
-def implRep (run : IRun) (e : XExpr) : Nat → Locals → Nat → List Val → Option (Res × Locals)
-  | 0, L, p, acc => some (.ok (.list acc.reverse) p, L)
-  | n + 1, L, p, acc =>
-    match run e L p with
-    | none => none
-    | some (.fail, L') => some (.fail, L')
-    | some (.ok v p', L') => implRep run e n L' p' (v :: acc)
+/-- `e{n}` with a data-dependent count, as `List._compile` emits it: the count is inline Python that is
+    evaluated again before every element (`if len(staging) >= n: break`) and once more after the
+    loop (`if len(staging) >= n: succeed`), each time in the locals as they are then -/
+def implRepDyn (P : XProgram) (run : IRun) (e : XExpr) (t : PyTerm) : Nat → Locals → Nat → List Val → Option (Res × Locals)
+  | 0, _, _, _ => none
+  | k + 1, L, p, acc =>
+    match (valuesI L t.names).map (fun vs => P.pyf t.fn vs) with
+    | some (.int i) =>
+      if i.toNat ≤ acc.length then some (.ok (.list acc.reverse) p, L)      -- break, and the test after the loop holds
+      else
+        match run e L p with
+        | none => none
+        | some (.fail, L') =>
+          -- break; the test after the loop, with the locals as the failed element left them
+          match (valuesI L' t.names).map (fun vs => P.pyf t.fn vs) with
+          | some (.int j) => if j.toNat ≤ acc.length then some (.ok (.list acc.reverse) p, L') else some (.fail, L')
+          | _ => none
+        | some (.ok v p', L') => implRepDyn P run e t k L' p' (v :: acc)
+    | _ => none
 
 /-- `Seq(..., names=, constructor=, constructor_args=)`: `name = _result` after each named member -/
 def implItems (run : IRun) (ctor : String) (fields : List Name) (start : Nat) :
@@ -531,8 +543,9 @@ def xgen (P : XProgram) (inp : List Nat) : Nat → XExpr → Locals → Nat → 
         | some (.fail, L'') => some (.fail, L'')
         | some (.ok v p'', L'') => some (.ok (P.app fv v) p'', L'')
     | .rep e t =>
+      -- enough turns of the loop for the count as it is now (it cannot change on well-scoped programs)
       match evalPyI P L t [] with
-      | some (.int i) => implRep run e i.toNat L p []
+      | some (.int i) => implRepDyn P run e t (i.toNat + 1) L p []
       | _ => none
     | .call t args =>
       match P.templates[t]? with
